@@ -811,7 +811,7 @@ def propagate_new_constants(trees: List[ast.AST], pinned_globals) -> bool:
             if isinstance(e, ast.Constant):
                 return True
             if isinstance(e, ast.Name):
-                return e.id in bound
+                return e.id in bound or e.id in ("max", "min", "abs", "sum", "len", "float", "int", "str", "bool", "dict", "list", "tuple", "set", "frozenset", "sorted", "round", "any", "all")
             if isinstance(e, ast.Attribute) and isinstance(e.value, ast.Name):
                 return e.value.id in classes and e.value.id in bound
             if isinstance(e, (ast.Tuple, ast.List, ast.Set)):
